@@ -187,6 +187,8 @@ def drive_arith(rec, quick):
                     V.f64[:] = sum((grp_to_doubles(g) for row in v for g in row), [])
                 if not rec.progress("%s%s nrows=%d" % (base, variant, nrows)):
                     continue
+                U.readonly(True)
+                V.readonly(True)
                 L.fn(base + variant, "v uppp")(nrows, R.addr, U.addr, V.addr)
                 rec.case(("dot", ncols, variant, nrows), nontrivial=nrows > 0)
                 if not (U.canaries_ok() and V.canaries_ok() and R.canaries_ok()) or not exact_small(R.f64):
